@@ -26,7 +26,9 @@ SHARD = 100
 RULE = ("random binary DCOPs: 1-5 variables (names v00.. added to the DCOP in shuffled order), domains of 1-4 "
         "values listed in a random order, 0-100% constraint density incl. several constraints on the same pair, "
         "both scope orientations and unconstrained variables, integer costs from several profiles (0/1, 0-9, "
-        "many ties, wide), min and max; 7% carry negative costs (min+negative is the listed finding); the real "
+        "many ties, wide), min and max; in 55% of the cases most variables (any position of the ordering) declare an "
+        "initial_value, usually not the first value of the domain; variable and constraint names (v00.., c00..) are "
+        "re-used by consecutive cases of a worker process with different tables; 7% carry negative costs (min+negative is the listed finding); the real "
         "SyncBBComputation objects are run by the thread-free netdriver under 6 schedule policies (random start "
         "order, late/early starts, starving one node, no-op actions), 75% to quiescence and 25% cut after a "
         "random number of steps. non-trivial = at least one backward message was sent; distinct = distinct JSON")
@@ -107,10 +109,18 @@ def gen(rng, n, tier):
         rng.shuffle(cons)
         order = list(range(nv))
         rng.shuffle(order)
+        # declared initial_value of each variable (SyncBB must enumerate the whole domain whatever it is):
+        # none in 45% of the cases, otherwise a domain member biased towards values that are NOT first
+        init = [None] * nv
+        if rng.random() < 0.55:
+            for i in range(nv):
+                if rng.random() < 0.8:
+                    d = doms[i]
+                    init[i] = rng.choice(d[1:]) if len(d) > 1 and rng.random() < 0.8 else rng.choice(d)
         policy = rng.choice(["uniform", "uniform", "startfirst", "startlate", "reverse", "starve"])
         steps = None if rng.random() < 0.75 else rng.randint(1, 60)
         cases.append(dict(mode=mode, doms=doms, cons=cons, order=order, policy=policy,
-                          seed=rng.randrange(10 ** 9), steps=steps))
+                          seed=rng.randrange(10 ** 9), steps=steps, init=init))
     return cases
 
 
@@ -145,7 +155,8 @@ def run_impl(c):
     rng = random.Random(c["seed"])
     random.seed(c["seed"])
     nv = len(c["doms"])
-    vs = {i: Variable(_name(i), Domain("d%d" % i, "d", c["doms"][i])) for i in range(nv)}
+    init = c.get("init") or [None] * nv
+    vs = {i: Variable(_name(i), Domain("d%d" % i, "d", c["doms"][i]), initial_value=init[i]) for i in range(nv)}
     dcop = DCOP("t", c["mode"])
     for i in c["order"]:
         dcop.add_variable(vs[i])
@@ -328,9 +339,15 @@ def nontrivial(c, o):
 
 def histogram(cases, obs):
     h = {"min": 0, "max": 0, "complete": 0, "truncated": 0, "negative_costs": 0, "single_variable": 0,
-         "messages": 0, "max_messages": 0, "backtracks": 0, "value_selections": 0, "held_before_start": 0}
+         "messages": 0, "max_messages": 0, "backtracks": 0, "value_selections": 0, "held_before_start": 0,
+         "with_initial_value": 0, "initial_value_not_first": 0}
     for c, o in zip(cases, obs):
         h[c["mode"]] += 1
+        ini = c.get("init") or []
+        if any(v is not None for v in ini):
+            h["with_initial_value"] += 1
+        if any(v is not None and v != c["doms"][i][0] for i, v in enumerate(ini)):
+            h["initial_value_not_first"] += 1
         if any(x < 0 for _a, _b, m in c["cons"] for row in m for x in row):
             h["negative_costs"] += 1
         if len(c["doms"]) == 1:
@@ -354,10 +371,12 @@ def shrink_candidates(c):
     for k in range(len(c["cons"])):
         out.append(dict(c, cons=c["cons"][:k] + c["cons"][k + 1:]))
     nv = len(c["doms"])
+    if any(v is not None for v in (c.get("init") or [])):
+        out.append(dict(c, init=[None] * nv))
     if nv > 1:
         last = nv - 1
         out.append(dict(c, doms=c["doms"][:last], cons=[x for x in c["cons"] if last not in (x[0], x[1])],
-                        order=[i for i in c["order"] if i != last]))
+                        order=[i for i in c["order"] if i != last], init=(c.get("init") or [None] * nv)[:last]))
     for i, d in enumerate(c["doms"]):
         if len(d) > 1:
             top = max(d)
@@ -370,5 +389,8 @@ def shrink_candidates(c):
                 if b == i:
                     m2 = [row[:top] for row in m2]
                 cons.append([a, b, m2])
-            out.append(dict(c, doms=c["doms"][:i] + [nd] + c["doms"][i + 1:], cons=cons))
+            ini = list(c.get("init") or [None] * nv)
+            if ini[i] == top:
+                ini[i] = None
+            out.append(dict(c, doms=c["doms"][:i] + [nd] + c["doms"][i + 1:], cons=cons, init=ini))
     return out
